@@ -25,7 +25,9 @@ TRUSTED = [
     "the generator's frame tracking (vplib/props/c10_gen.py): validated by the well-scoped stream (every unmutated program must compile and bind as predicted)",
 ]
 
-F1 = "C10-F1-module-or-relation-name-passes-through"
+F1 = "C10-F1-module-or-relation-name-passes-through"     # fixed by a131b2a: never returned by a classifier
+F2 = "C10-F2-bare-that-outside-join-passes-through"
+F3 = "C10-F3-ancestor-module-declaration-not-found"
 
 HEADER = ("From Coq Require Import List NArith Bool.\nFrom PV Require Import Lib.ListX Model.Scope Gen.GenC10Std.\n"
           "Import ListNotations.\nLocal Open Scope N_scope.\n"
@@ -39,7 +41,7 @@ def cs(x):
 
 
 def coq_scope(prog, this, that=None):
-    root = [("std", "NModule"), ("default_db", "NModule")] + list(prog.root)
+    root = [("std", "NModule"), ("default_db", "NModule"), ("_param", "NModule")] + list(prog.root)
     r = "[" + "; ".join("(%s, %s)" % (cs(n), k) for n, k in root) + "]"
     return "(mkScope %s %s %s [] std_names)" % (r, this.coq(), "None" if that is None else "(Some %s)" % that.coq())
 
@@ -72,6 +74,8 @@ def err_kind(a):
             return "err:too-many"
         if "unknown named argument" in rs:
             return "err:unknown-named"
+        if "table variable cannot be used as a scalar value" in rs:
+            return "err:not-a-value"
         if "internal compiler error" in rs:
             return "err:internal"
         if "expected" in rs:
@@ -105,6 +109,66 @@ def bound_column(rqjson):
         elif t[0] == "TCompute" and t[1] == cid:
             return ("compute",)
     return ("elsewhere",)
+
+
+def judge_module(ck, c, classify_module):
+    """declarations inside modules: the model's verdict (faithful to resolve_ident) vs the implementation, and the
+    property's verdict (reference/spec/modules.md: own module, then the parents, then the root) vs both"""
+    st, mc, mv, a = c["stream"], c["mc"], c.get("model"), c["answer"]
+    ck.count(st, c["src"])
+    rep = {"program": c["src"], "stream": st, "impl": c["impl"], "site": mc.site, "module_case": mc.describe(), "model": str(mv)}
+    sql = a.get("ok", "") if isinstance(a, dict) else ""
+    # the property's verdict
+    visible = mc.where != "none"
+    if mc.site == "value":
+        must_reject = (not visible) or mc.kind in ("table", "func", "module")
+    else:
+        must_reject = visible and mc.kind != "table"
+    ck.stat(st, "%s:%s:%s:depth%d" % (mc.site, mc.kind if visible else "undeclared", mc.where, mc.depth))
+    if mv is None:
+        return
+    if mc.site == "value":
+        mk = outcome_kind(mv)
+        model_rejects = mk.startswith("OErr")
+    else:
+        res, declared = mv
+        mk = res if isinstance(res, str) else "%s:%s" % (res[0], res[1])
+        model_rejects = not isinstance(res, str) or res != "Applied"
+    rep["model_kind"] = mk
+    ck.stat(st, "model:" + mk)
+    ck.stat(st, "impl:" + c["impl"])
+    if c["impl"] in ("panic", "other"):
+        ck.violation("a declaration inside a module makes the compiler panic", dict(rep, answer=str(a)[:300]))
+        return
+    impl_rejects = c["impl"] != "ok"
+    # 1. model vs implementation
+    if model_rejects != impl_rejects:
+        if impl_rejects:
+            ck.violation("modules: the model resolves the reference (%s) but the implementation rejects it (%s)" % (mk, c["impl"]), dict(rep, answer=str(a)[:300]))
+        else:
+            ck.violation("ill-scoped program compiled: modules (the model says %s)" % mk, dict(rep, answer=sql[:300]))
+        return
+    if not impl_rejects:
+        if mc.site == "value":
+            if "4242" not in sql:
+                ck.violation("modules: the constant the model binds is not what was compiled", dict(rep, answer=sql[:300]))
+                return
+        else:
+            uses_decl = "zsrc" in sql
+            if uses_decl != bool(declared):
+                ck.violation("modules: the model says the table reference is %s, the SQL says otherwise" % ("a declared relation" if declared else "a database table"),
+                             dict(rep, answer=sql[:300]))
+                return
+    # 2. the property vs the (agreeing) model and implementation
+    if must_reject and not impl_rejects:
+        ck.disagreement("ill-scoped program compiled: a name declared in an enclosing module as a %s stands where a relation is required and is read as a database table" % mc.kind,
+                        dict(rep, answer=sql[:300]), classify_module)
+    elif not must_reject and not impl_rejects and mc.site != "value" and visible and "zsrc" not in sql:
+        ck.disagreement("a relation declared in an enclosing module is compiled to a database table of the same name",
+                        dict(rep, answer=sql[:300]), classify_module)
+    elif not must_reject and impl_rejects:
+        # a well-scoped program that is rejected: safe, not the property's subject
+        ck.stat(st, "well-scoped-by-spec-but-rejected:%s:depth%d" % (mc.where, mc.depth))
 
 
 def run():
@@ -271,6 +335,44 @@ def run():
                               "kind": "edit", "pi": pi, "coq": "lower_ref %s %s" % (coq_scope(p, fr, right), coq_ident(([], d))),
                               "site": "join-condition(this+that)", "name": d, "frame": fr.describe()})
 
+    # (f) a module or relation name where a value is required (repair a131b2a; was C10-F1), and the bare name `that`
+    #     outside a join condition (C10-F2).  At any frame (a name that denotes a declaration is never inferred as a column).
+    for pi, p in enumerate(progs):
+        if not p.steps:
+            continue
+        p2 = type("P", (), {"root": list(p.root) + c10_gen.NONVALUE_ROOT})()
+        decls = "\n".join(c10_gen.NONVALUE_DECLS)
+        for _ in range(ck.n(3, 8)):
+            k = g.r.randrange(1, len(p.frames))
+            fr = p.frames[k]
+            taken = set(fr.all_cols()) | set(fr.input_names())
+            txt, ident, what = g.pick(c10_gen.NONVALUE_NAMES + [("that", ([], "that"), "bare-that")] * 2)
+            if ident[1] in taken or (ident[0] and ident[0][0] in taken):
+                continue
+            interp = g.chance(0.2)
+            sk = g.pick(list(c10_gen.INTERP_SITES if interp else c10_gen.VALUE_SITES))
+            site = (c10_gen.INTERP_SITES if interp else c10_gen.VALUE_SITES)[sk]
+            that = c10_gen.Frame([c10_gen.Input("w", [], True, c10_gen.TABLES["w"])]) if sk == "join-cond" else None
+            if sk == "join-cond" and (what == "bare-that" or "w" in p.used_tables or len(fr.inputs) >= 3):
+                continue
+            cases.append({"stream": "edit-f-module-or-relation-as-value", "src": decls + "\n" + p.text(upto=k, extra=[site % txt]), "kind": "edit", "pi": pi,
+                          "coq": "lower_ref_in %s %s %s" % ("true" if interp else "false", coq_scope(p2, fr, that), coq_ident(ident)),
+                          "site": sk, "name": txt, "what": what, "interp": interp, "frame": fr.describe()})
+
+    # (g) declarations inside modules: a name in a relation (or value) position of `let q = (..)` inside module m / m.inner,
+    #     declared in q's own module, in the parent module, at the root or nowhere (resolve_ident; repair d92afac)
+    for mc in c10_gen.module_cases(g, ck.n(140, 900)):
+        ms = mc.coq_ms()
+        idn = "([], %s)" % cs(mc.n)
+        if mc.site == "value":
+            coq = "lower_ref_m %s %s" % (ms, idn)
+        else:
+            args = {"from": "[k]", "join": "[k; AScalar; ARel]", "append": "[k; ARel]"}[mc.site]
+            coq = ("let ms := %s in (match rel_arg_kind_m ms %s with Some k => call [%s] %s [] | None => AErr EAmbiguous end, "
+                   "match rel_enclosing (ms_mods ms) (shadowed (ms_scope ms)) (ms_cur ms) %s with Some _ => true | None => "
+                   "match mlookup (ms_mods ms) (shadowed (ms_scope ms)) %s with [] => false | _ => true end end)") % (ms, idn, cs(mc.site), args, idn, idn)
+        cases.append({"stream": "modules", "src": mc.text(), "kind": "module", "pi": None, "coq": coq, "mc": mc, "site": mc.site})
+
     # distinct by program text + stream
     seen, uniq = set(), []
     for c in cases:
@@ -307,16 +409,27 @@ def run():
             base_ok[c["pi"]] = c["impl"] == "ok"
 
     def classify(case):
-        # C10-F1: the model itself predicts the passthrough (the name denotes a module or a relation variable)
-        if case.get("model_kind") == "OPassthrough" and case.get("impl") == "ok":
-            return F1
+        # C10-F2: the model itself predicts the passthrough, and since a131b2a that is only the bare name `that` outside a
+        # join condition (Props/C10.v passthrough_only_bare_that); interpolated relation names are spliced by design and
+        # never reach this classifier
+        if case.get("model_kind") == "OPassthrough" and case.get("impl") == "ok" and case.get("name") == "that" and not case.get("interp"):
+            return F2
+        return None
+
+    def classify_module(case):
+        # C10-F3: the declaration lives in a PROPER ANCESTOR of the referencing declaration's module (depth >= 2, declared in
+        # the parent): resolve_ident drops the outermost module name instead of the innermost one
+        d = case.get("module_case") or {}
+        if d.get("depth", 1) >= 2 and d.get("where") == "parent":
+            return F3
         return None
 
     for c in cases:
         st = c["stream"]
         key = c["src"]
         a = c["answer"]
-        rep = {"program": c["src"], "stream": st, "impl": c["impl"], "site": c.get("site"), "name": c.get("name"), "frame": c.get("frame")}
+        rep = {"program": c["src"], "stream": st, "impl": c["impl"], "site": c.get("site"), "name": c.get("name"), "frame": c.get("frame"),
+               "interp": c.get("interp"), "what": c.get("what")}
         if c["kind"] == "base":
             ck.count(st, key)
             ck.stat(st, "base:" + c["impl"])
@@ -333,6 +446,9 @@ def run():
             continue
         if c["kind"] in ("value", "base-variant"):
             ck.stat(st, "skipped:base-program-rejected")
+            continue
+        if c["kind"] == "module":
+            judge_module(ck, c, classify_module)
             continue
         if not base_ok.get(c["pi"], False):
             # the generator produced a base program the implementation rejects: its edits prove nothing
@@ -374,6 +490,12 @@ def run():
             if not ok:
                 ck.violation("the implementation bound `%s` to %s, the model resolves it to %s" % (c["ref"], bc, exp), rep)
             continue
+        # an interpolated item of an s-string that names a relation variable: spliced in by design (the model says so)
+        if c.get("interp") and mk == "OPassthrough":
+            ck.stat(st, "interpolated-relation-name:" + c["impl"])
+            if c["impl"] != "ok":
+                ck.violation("a relation name interpolated into an s-string should be spliced in (model: OPassthrough), got %s" % c["impl"], dict(rep, answer=str(a)[:300]))
+            continue
         # edits: the implementation must reject
         want = None
         if mk is not None:
@@ -391,6 +513,7 @@ def run():
             expected_impl = {"EUnknown": ("err:unknown",), "EAmbiguous": ("err:ambiguous",),
                              "ETooManyArgs": ("err:too-many", "err:internal", "err:unknown", "err:expected", "err:other"),
                              "EUnknownNamed": ("err:unknown-named",),
+                             "ENotAValue": ("err:expected", "err:not-a-value"),
                              "ENotARelation": ("err:internal", "err:expected", "err:other", "err:unknown")}.get(want)
             if expected_impl and c["impl"] not in expected_impl:
                 ck.violation("rejected, but not for the reason the model gives (%s vs %s)" % (c["impl"], want), dict(rep, answer=str(a)[:300]))
@@ -399,17 +522,25 @@ def run():
             # (OPassthrough / OTuple / OValue verdicts are about a scalar position; the site may still reject them by type)
             ck.violation("the model resolves the edited reference (%s) but the implementation rejects it (%s)" % (mk, c["impl"]), dict(rep, answer=str(a)[:300]))
 
-    # ------------------------------------------------------------------ recorded findings
+    # ------------------------------------------------------------------ recorded findings: every replay, open or fixed.
+    # An open one must still compile (it is counted as a hit of its own id); a fixed one must be rejected -- a fixed
+    # finding suppresses nothing, its recurrence is a VIOLATION.
     for f in ck.findings:
         src = (f.get("replay") or {}).get("src")
-        if f.get("status", "open") != "open" or not src:
+        if not src:
             continue
         a = harness("compile", [{"src": src, "target": "sql.sqlite"}], shards=1)[0]
         ck.count("finding-replay", src)
+        is_open = f.get("status", "open") == "open"
         if "ok" in a:
-            ck.disagreement("recorded finding reproduces", {"program": src, "impl": "ok", "model_kind": "OPassthrough", "answer": a["ok"][:200]}, classify)
+            ck.disagreement("recorded finding %s reproduces: ill-scoped program compiled" % f["id"],
+                            {"program": src, "impl": "ok", "answer": a["ok"][:200], "finding": f["id"]},
+                            (lambda c_, fid=f["id"]: fid) if is_open else None)
         else:
-            ck.stat("finding-replay", "no-longer-reproduces:" + f["id"])
+            ck.stat("finding-replay", ("no-longer-reproduces:" if is_open else "fixed-stays-fixed:") + f["id"])
+            if is_open:
+                ck.violation("open finding %s no longer reproduces: audit it (mark it fixed with its commit)" % f["id"],
+                             {"program": src, "impl": err_kind(a), "kind": "stale-finding"}, no_input=True)
 
     for c in cases[:8]:
         ck.sample({"stream": c["stream"], "program": c["src"], "model": str(c.get("model")), "impl": c["impl"]})
